@@ -385,10 +385,55 @@ func TestC02Broker(t *testing.T) {
 		if g%3 == 0 {
 			sc = genScriptX(r, 3+r.Intn(2), 6+r.Intn(10), strict)
 		}
+		if g%10 == 9 {
+			sc, strict = genBurst(r), true
+			out.Count("c02.burst_scripts", 1)
+		}
 		out.Begin(id, seed, nil)
 		c02Script(t, sc, strict, seed, g)
 		out.End()
 	}
+}
+
+// genBurst: 17..48 QoS 2 exchanges open at once (the receiver's queue of unreleased
+// exchanges grows past its initial capacity), with retransmissions in between, then
+// released oldest first with some PUBRELs repeated and a few exchanges re-opened.
+func genBurst(r *spec.Rand) []c02Tok {
+	k := 17 + r.Intn(32)
+	var s []c02Tok
+	pre := r.Intn(6) // completed exchanges first, so the queue's ring is wrapped when it grows
+	for i := 0; i < pre; i++ {
+		s = append(s, c02Tok{'2', uint16(100 + i)}, c02Tok{'R', uint16(100 + i)})
+	}
+	for i := 1; i <= k; i++ {
+		s = append(s, c02Tok{'2', uint16(i)})
+		if r.Intn(5) == 0 {
+			s = append(s, c02Tok{'2', uint16(1 + r.Intn(i))}) // retransmission of an open exchange
+		}
+		if r.Intn(9) == 0 {
+			s = append(s, c02Tok{'1', uint16(200 + i)})
+		}
+	}
+	s = append(s, c02Tok{'F', 0})
+	for i := 1; i <= k; i++ {
+		s = append(s, c02Tok{'R', uint16(i)})
+		if r.Intn(6) == 0 {
+			s = append(s, c02Tok{'R', uint16(i)}) // repeated PUBREL
+		}
+	}
+	// identifiers are free again: new exchanges with old identifiers, released in opening order
+	// (a release that overtakes older open exchanges would not be "strict", see c02Script)
+	var again []uint16
+	for i := 1; i <= k; i++ {
+		if r.Intn(6) == 0 {
+			again = append(again, uint16(i))
+			s = append(s, c02Tok{'2', uint16(i)})
+		}
+	}
+	for _, id := range again {
+		s = append(s, c02Tok{'R', id})
+	}
+	return s
 }
 
 // ---------------------------------------------------------------------------
@@ -481,6 +526,10 @@ func TestC02Client(t *testing.T) {
 		r := spec.NewRand(seed)
 		strict := g%4 != 0
 		sc := genScript(r, 2+r.Intn(3), 3+r.Intn(9), strict)
+		if g%10 == 9 {
+			sc, strict = genBurst(r), true
+			out.Count("c02.client_burst_scripts", 1)
+		}
 		out.Begin(id, seed, nil)
 		c02ClientScript(sc, strict, seed, g)
 		out.Count("c02.client_scripts", 1)
